@@ -23,7 +23,8 @@ RULE = (
 )
 ASSUMPTIONS = [
     "accepted option combinations are (True,True), (True,False), (False,False); (False,True) is documented to raise and is outside the domain",
-    "read-back is asserted only for the full rendering (True,True) with start != end and a shortest-path solution, as the statement says",
+    "read-back is asserted only for the full rendering (True,True) with start != end and a shortest-path solution, as the statement says; "
+    "drawing is asserted for every valid solution (self-avoiding walk along connections, also one cell long, also the long way round a cycle)",
 ]
 
 OPTS = [(True, True), (True, False), (False, False)]
@@ -37,6 +38,13 @@ def check(case: dict):
     start = tuple(sol[0]) if kind != "lattice" else None
     end = tuple(sol[-1]) if kind != "lattice" else None
     labels = [kind, "oblong" if r != c else "square", f"seq{len(case['seq'])}"]
+    # reading back is promised when start and end differ and the solution is a shortest path; drawing is promised for every solution
+    readback = True
+    if kind == "solved":
+        d = M.bfs(M.adj(g), start).get(end)
+        readback = start != end and d == len(sol) - 1
+        if not readback:
+            labels.append("non-shortest-solution" if start != end else "one-cell-solution")
     for step, (se, ss) in enumerate(case["seq"]):
         sig = f"C10:{kind}:({'T' if se else 'F'},{'T' if ss else 'F'})"
         hist = f"; rendered before on the same object: {case['seq'][:step]}" if step else ""
@@ -50,7 +58,7 @@ def check(case: dict):
         want_txt = M.render_ascii(want)
         require(txt == want_txt, f"{sig}:ascii-differs", f"got\n{txt}\nexpected\n{want_txt}{hist}")
         labels.append(f"opts:{int(se)}{int(ss)}")
-        if se and ss:
+        if se and ss and readback:
             cls = L.KIND_CLASS[kind]
             for nm, fn in (("from_pixels", lambda: cls.from_pixels(img)), ("from_ascii", lambda: cls.from_ascii(txt))):
                 back = call(f"{sig}:{nm}", fn)
@@ -88,6 +96,53 @@ def _cases_for_graph(g, pairs_limit, rnd):
         yield {"g": g, "kind": "targeted", "sol": [list(s), list(e)], "seq": seq()}
         for p in M.all_shortest_paths(a, s, e, cap=8):
             yield {"g": g, "kind": "solved", "sol": [list(q) for q in p], "seq": seq()}
+
+
+def _simple_paths(a, s, limit=None):
+    """every self-avoiding walk from s with >= 2 cells (depth-first)"""
+    out = []
+    stack = [[s]]
+    while stack:
+        p = stack.pop()
+        if len(p) >= 2:
+            out.append(p)
+            if limit is not None and len(out) >= limit:
+                return out
+        for v in sorted(a[p[-1]]):
+            if v not in p:
+                stack.append(p + [v])
+    return out
+
+
+def _exhaustive_walks(shard, nshards):
+    """solutions that are valid (self-avoiding, along connections) but not necessarily shortest: all of them on shapes up to 2x3 / 3x2"""
+    k = 0
+    for r, c in [(1, 2), (1, 3), (2, 2), (2, 3), (3, 2)]:
+        for g in G.all_graphs(r, c):
+            k += 1
+            if k % nshards != shard:
+                continue
+            a = M.adj(g)
+            j = 0
+            for s in sorted(a):
+                for p in _simple_paths(a, s):
+                    j += 1
+                    yield {"g": g, "kind": "solved", "sol": [list(q) for q in p], "seq": PERMS[j % 6]}
+
+
+@st.composite
+def _random_walk(draw, hi):
+    g = draw(G.shaped_graphs(2, hi, False, connected=draw(st.booleans())))
+    a = M.adj(g)
+    s = tuple(draw(G.cell_in(g["r"], g["c"])))
+    p = [s]
+    for _ in range(draw(st.sampled_from([0, 1, 2, 3, 5, 8, 12, 20, 40, 80]))):
+        nxt = [v for v in sorted(a[p[-1]]) if v not in p]
+        if not nxt:
+            break
+        p.append(draw(st.sampled_from(nxt)))
+    seq = draw(st.lists(st.sampled_from([list(o) for o in OPTS]), min_size=1, max_size=4))
+    return {"g": g, "kind": "solved", "sol": [list(q) for q in p], "seq": seq}
 
 
 def _exhaustive(quick):
@@ -128,4 +183,6 @@ def subs(tier: str):
     return [
         Sub("exhaustive<=3x3", check, "exhaustive", cases=_exhaustive(q), exhaustive_flag=not q),
         Sub("random", check, "hypothesis", strategy=lambda: _random(12 if q else 20), examples=80 if q else 1200),
+        Sub("any-valid-solution-exhaustive<=2x3", check, "exhaustive", cases=_exhaustive_walks, exhaustive_flag=True),
+        Sub("any-valid-solution-random", check, "hypothesis", strategy=lambda: _random_walk(8 if q else 14), examples=60 if q else 1000),
     ]
